@@ -54,7 +54,11 @@ CasesOf(id) ==
                               f \in {g \in Lies(C, k, a, OtherHeights(C, a)) : WithCoherent \/ ~g.coh}}
                       ELSE {})
                 : a \in HonestArgs(C, k)} : k \in Kinds \cap CaseKinds}
-Cases == CasesOf("c20full") \cup CasesOf("c20bare")
+\* searches answered by the full node's rpc/core TxSearch with prove = true (kind "TxSearch": no lie,
+\* the subject is the honest server itself)
+SearchCasesOf(id) == IF "TxSearch" \in CaseKinds
+                     THEN {[chain |-> id, kind |-> "TxSearch", a |-> a, f |-> NoLie] : a \in SearchArgs(ChainOf(id))} ELSE {}
+Cases == CasesOf("c20full") \cup CasesOf("c20bare") \cup SearchCasesOf("c20full") \cup SearchCasesOf("c20bare")
 
 \* ph: 0 = the case as enumerated; 1 = the case being judged.  The properties are evaluated on
 \* the successor so that TLC's workers evaluate them in parallel (initial states are processed
@@ -64,14 +68,16 @@ CaseInit == cs \in Cases /\ ph = 0
 CaseNext == ph = 0 /\ ph' = 1 /\ UNCHANGED cs
 
 InStatement == cs.kind \in StatementKinds
+IsCall      == cs.kind \in Kinds          \* a call of the verifying client (the other cases address the server)
 Judged(prop) == ph = 1 => prop
 RelaySound        == Judged(InStatement => RelaySoundCase(ChainOf(cs.chain), cs))
 RelaySoundStrict  == Judged(InStatement => RelaySoundStrictCase(ChainOf(cs.chain), cs))
 RelayComplete     == Judged(InStatement => RelayCompleteCase(ChainOf(cs.chain), cs))
-UncommittedOnly   == Judged(UncommittedOnlyCase(ChainOf(cs.chain), cs))
-AllProps          == Judged(CaseOK(ChainOf(cs.chain), cs))
+UncommittedOnly   == Judged(IsCall => UncommittedOnlyCase(ChainOf(cs.chain), cs))
+ServedProofsVerify == Judged(cs.kind = "TxSearch" => SearchServedOK(ChainOf(cs.chain), cs.a))
+AllProps          == Judged(IF IsCall THEN CaseOK(ChainOf(cs.chain), cs) ELSE SearchServedOK(ChainOf(cs.chain), cs.a))
 \* the two kinds outside the statement's list (consensus parameters, block metas)
-ExtraSound        == Judged(~InStatement => RelaySoundCase(ChainOf(cs.chain), cs))
-ExtraComplete     == Judged(~InStatement => RelayCompleteCase(ChainOf(cs.chain), cs))
+ExtraSound        == Judged((IsCall /\ ~InStatement) => RelaySoundCase(ChainOf(cs.chain), cs))
+ExtraComplete     == Judged((IsCall /\ ~InStatement) => RelayCompleteCase(ChainOf(cs.chain), cs))
 \* a lie that changes a committed field of a statement kind is never relayed ... implied by the above
 =============================================================================
